@@ -34,6 +34,8 @@ class R:
         self.sv = sv
         self.order = order or {}
         self.cid = contract_ident
+        self._iface_items = {}
+        self._contract_item = None
 
     # ---------------------------------------------------------- source
     def ty(self, ti):
@@ -86,10 +88,13 @@ class R:
         else:
             m_t, q_t = M, Q
         lines = [f"pub mod {part['module']} {{", "    use super::*;", f"    #[{sv}::interface]"]
+        item_start = len(lines)
         if mode == "fixed":
             lines.append(f"    #[sv::custom(msg={M}, query={Q})]")
         for (k, at) in part.get("msg_attrs", []):
             lines.append(f"    #[sv::msg_attr({k}, {at})]")
+        for at in part.get("foreign_attrs", []):
+            lines.append(f"    #[{at}]")
         lines.append(f"    pub trait {part['trait']} {{")
         items = ["        type Error: From<StdError>;"]
         if mode == "assoc":
@@ -103,7 +108,10 @@ class R:
             params = ", ".join([f"&self", f"ctx: {ctx}"] + self._params(h))
             items.append(f"        fn {h['name']}({params}) -> {self._ret(h, m_t, 'Self::Error')};")
         lines += items
+        for extra in part.get("extra_items", []):
+            lines.append("        " + extra)
         lines.append("    }")
+        self._iface_items[part["id"]] = "\n".join(lines[item_start:])
         lines.append("}")
         # impl on the contract
         lines.append(f"impl {part['module']}::{part['trait']} for {self.cid} {{")
@@ -177,8 +185,14 @@ class R:
         o = self.order.get("attrs")
         if o:
             body_attrs = [body_attrs[i] for i in o]
-        lines += attrs + body_attrs
+        lines += attrs
+        item_start = len(lines)
+        lines += body_attrs
+        for at in c.get("foreign_attrs", []):
+            lines.append(f"#[{at}]")
         lines.append(f"impl {self.cid} {{")
+        for extra in c.get("extra_items_first", []):
+            lines.append("    " + extra)
         lines.append(f"    pub fn new() -> Self {{ svmon::note_new(); {self.cid} }}")
         for h in self._ordered(c):
             if h["kind"] == "reply":
@@ -191,8 +205,19 @@ class R:
             lines.append(f"    pub fn {h['name']}({params}) -> {self._ret(h, M, p['error'])} {{")
             lines.append(f"        {self._body(h)}")
             lines.append("    }")
+        for extra in c.get("extra_items", []):
+            lines.append("    " + extra)
         lines.append("}")
+        self._contract_item = "\n".join(lines[item_start:])
         return lines
+
+    def iface_item(self, part):
+        self.iface_src(part)
+        return self._iface_items[part["id"]]
+
+    def contract_item(self, with_contract_attr=False):
+        self.contract_src()
+        return (f"#[{self.sv}::contract]\n" if with_contract_attr else "") + self._contract_item
 
     def data_param(self, h):
         """(attribute, rust type, echo expression) of a success method's data parameter."""
